@@ -188,7 +188,10 @@ class Report:
         if os.path.isdir(rdir):
             for f in os.listdir(rdir):
                 if f.startswith(tier + "-"):
-                    os.remove(os.path.join(rdir, f))
+                    try:
+                        os.remove(os.path.join(rdir, f))
+                    except OSError:      # another run of the same check is cleaning up at the same time
+                        pass
 
     # -- coverage bookkeeping
     def tlc(self, res, label):
